@@ -84,26 +84,44 @@ ANCHORS = [
     "txtorcon.util:unescape_quoted_string",
     "txtorcon.util:maybe_coroutine",
 ]
-FLOORS = {
-    "quick": {"evaluations": 800, "pre_auth_lines_checked": 1500, "method_decisions_checked": 600,
-              "provider_zero_call_checks": 80, "wrong_length_cookie_runs_checked": 100,
-              "safecookie_proofs_compared": 80, "unverifiable_challenge_runs_checked": 40,
-              "client_nonces_checked": 150, "ready_outcomes_checked": 800, "ready_failures_checked": 300,
-              "ready_successes_checked": 100, "escaped_paths_read": 50,
-              "reach:txtorcon.torcontrolprotocol:TorControlProtocol._do_authenticate": 600,
-              "reach:txtorcon.torcontrolprotocol:TorControlProtocol._safecookie_authchallenge": 100,
-              "reach:txtorcon.torcontrolprotocol:TorControlProtocol._auth_failed": 300,
-              "reach:txtorcon.torcontrolprotocol:TorControlProtocol._bootstrap": 150},
-    "thorough": {"evaluations": 3500, "pre_auth_lines_checked": 7000, "method_decisions_checked": 3000,
-                 "provider_zero_call_checks": 300, "wrong_length_cookie_runs_checked": 400,
-                 "safecookie_proofs_compared": 300, "unverifiable_challenge_runs_checked": 300,
-                 "client_nonces_checked": 700, "ready_outcomes_checked": 3500, "ready_failures_checked": 1500,
-                 "ready_successes_checked": 400, "escaped_paths_read": 200,
-                 "reach:txtorcon.torcontrolprotocol:TorControlProtocol._do_authenticate": 3000,
-                 "reach:txtorcon.torcontrolprotocol:TorControlProtocol._safecookie_authchallenge": 500,
-                 "reach:txtorcon.torcontrolprotocol:TorControlProtocol._auth_failed": 1500,
-                 "reach:txtorcon.torcontrolprotocol:TorControlProtocol._bootstrap": 700},
-}
+FLOORS = {'quick': {'evaluations': 550,
+           'pre_auth_lines_checked': 1000,
+           'method_decisions_checked': 550,
+           'provider_zero_call_checks': 160,
+           'wrong_length_cookie_runs_checked': 110,
+           'safecookie_proofs_compared': 100,
+           'unverifiable_challenge_runs_checked': 50,
+           'client_nonces_checked': 160,
+           'ready_outcomes_checked': 550,
+           'ready_failures_checked': 480,
+           'ready_successes_checked': 75,
+           'escaped_paths_read': 160,
+           'reach:txtorcon.torcontrolprotocol:TorControlProtocol._do_authenticate': 520,
+           'reach:txtorcon.torcontrolprotocol:TorControlProtocol._safecookie_authchallenge': 150,
+           'reach:txtorcon.torcontrolprotocol:TorControlProtocol._auth_failed': 480,
+           'reach:txtorcon.torcontrolprotocol:TorControlProtocol._bootstrap': 200,
+           'reach:txtorcon.util:compare_via_hash': 130,
+           'reach:txtorcon.util:unescape_quoted_string': 440,
+           'reach:txtorcon.util:maybe_coroutine': 90},
+ 'thorough': {'evaluations': 3800,
+              'pre_auth_lines_checked': 7000,
+              'method_decisions_checked': 3800,
+              'provider_zero_call_checks': 1400,
+              'wrong_length_cookie_runs_checked': 350,
+              'safecookie_proofs_compared': 950,
+              'unverifiable_challenge_runs_checked': 360,
+              'client_nonces_checked': 1300,
+              'ready_outcomes_checked': 3800,
+              'ready_failures_checked': 3500,
+              'ready_successes_checked': 360,
+              'escaped_paths_read': 1400,
+              'reach:txtorcon.torcontrolprotocol:TorControlProtocol._do_authenticate': 3500,
+              'reach:txtorcon.torcontrolprotocol:TorControlProtocol._safecookie_authchallenge': 1250,
+              'reach:txtorcon.torcontrolprotocol:TorControlProtocol._auth_failed': 3500,
+              'reach:txtorcon.torcontrolprotocol:TorControlProtocol._bootstrap': 1600,
+              'reach:txtorcon.util:compare_via_hash': 1150,
+              'reach:txtorcon.util:unescape_quoted_string': 3100,
+              'reach:txtorcon.util:maybe_coroutine': 700}}
 
 # ---------------------------------------------------------------------------
 # the input space
